@@ -843,6 +843,9 @@ func checkResumeReset(w *core.World, r *core.Report) {
 		return
 	}
 	var resumeEdges []core.Edge
+	if step := vmStepFn(w); step != nil {
+		run = step // the resume block may live in a helper that only Run calls
+	}
 	for _, c := range flagConstCalls(run, fWait, stResetFlag) {
 		if v := core.CallValue(c); v != nil {
 			resumeEdges = append(resumeEdges, core.EdgesWhere(v, true)...)
@@ -927,12 +930,13 @@ func checkDirtySetters(w *core.World, r *core.Report, rule string) {
 		return
 	}
 	run := w.Func("vm", "(*Vm).Run")
+	step := vmStepFn(w)
 	n, bad := 0, ""
 	var badPos token.Pos
 	for _, fn := range w.LibFuncs {
 		for _, c := range flagConstCalls(fn, fDirty, stSetFlag) {
 			n++
-			if fn != run {
+			if fn != run && (fn != step || step == nil) {
 				bad = fmt.Sprintf("%s sets FLAG_DIRTY at %s", core.QName(fn), w.Pos(c.Pos()))
 				badPos = c.Pos()
 			}
